@@ -705,8 +705,8 @@ func (e *Env) call(x ECall) Val {
 			e.fail("mapval needs a Go map")
 		}
 		m := v.G.Underlying().(*types.Map)
-		hv, k, vs := w.mapHeap(m)
-		return Val{T: "(select " + e.g.stateGet(e.st, hv) + " " + v.T + ")", S: "(MapV " + k + " " + vs + ")"}
+		_, k, vs := w.mapHeap(m)
+		return Val{T: e.g.mapvalTerm(e.st, v, m), S: "(MapV " + k + " " + vs + ")"}
 	case "mget", "mhas":
 		vs := args()
 		if len(vs) != 2 || !strings.HasPrefix(vs[0].S, "(MapV ") {
